@@ -311,8 +311,15 @@ class EditStream(HTMLHandlerBase):
             params = flask.request.json
         else:
             params = flask.request.form
+        try:
+            # before anything is modified: an object that was changed is
+            # written by the next commit, whoever makes it
+            self.check_csrf('streams', params)
+        except (ValueError, CsrfFailureException) as cfe:
+            logging.debug("csrf check failed")
+            logging.debug(cfe)
+            return flask.make_response('CSRF failure', 400)
         current_stream.title = params['title']
-        context = self.create_context(current_stream.title, False)
         if models.MediaFile.count(stream=current_stream) == 0:
             current_stream.directory = params['directory']
         current_stream.marlin_la_url = str_or_none(params['marlin_la_url'])
@@ -326,19 +333,6 @@ class EditStream(HTMLHandlerBase):
                 return flask.make_response(
                     f'Invalid timing_reference "{html.escape(timing_reference)}"', 400)
             current_stream.set_timing_reference(mf.as_stream_timing_reference())
-        try:
-            self.check_csrf('streams', params)
-        except (CsrfFailureException) as cfe:
-            logging.debug("csrf check failed")
-            logging.debug(cfe)
-            context['error'] = "csrf check failed"
-        if context['error'] is not None:
-            context['csrf_tokens'] = CsrfTokenCollection(
-                files=self.generate_csrf_token('files', context['csrf_key']),
-                kids=self.generate_csrf_token('keys', context['csrf_key']),
-                streams=context['csrf_token'],
-                upload=None)
-            return flask.render_template('media/stream.html', **context)
         models.db.session.commit()
         if is_ajax():
             return jsonify(current_stream.toJSON())
